@@ -73,6 +73,17 @@ func withNSAddrBudget(ctx context.Context) context.Context {
 	return context.WithValue(ctx, nsAddrBudgetKey, left)
 }
 
+// inheritNSAddrBudget carries src's lookup counter into dst: a detached
+// helper job (the IPv6 enrichment of a referral) belongs to the request tree
+// that started it. Without the counter every lookup the job made went through
+// Resolve with none in sight and was handed a fresh 64 of its own.
+func inheritNSAddrBudget(dst, src context.Context) context.Context {
+	if left, ok := src.Value(nsAddrBudgetKey).(*atomic.Int32); ok {
+		return context.WithValue(dst, nsAddrBudgetKey, left)
+	}
+	return dst
+}
+
 // takeNSAddrLookup debits one lookup; false once the tree has used them up.
 // A context without a counter (bare test resolvers) is not limited.
 func takeNSAddrLookup(ctx context.Context) bool {
